@@ -35,12 +35,10 @@ def run_case(ctx, g, gd, q, via="outcomes", gkey=None):
     Y = {Variable(y) for y in q["Y"]}
     kernel.LOG.reset_case({"graph": gd, "X": q["X"], "Y": q["Y"], "via": via})
     try:
-        if via == "outcomes":
-            identify_outcomes(g, X, Y)
-        elif via == "single":
-            identify_outcomes(g, next(iter(X)), next(iter(Y)))
-        else:
+        if via == "shared-identify":
             identify(Identification(query=Query(outcomes=Y, treatments=X), graph=g))
+        else:
+            gq.call_id(g, {"X": q["X"], "Y": q["Y"], "Z": []}, via)
     except Exception:  # noqa: BLE001  -- judged by the on_raise monitor
         pass
     tags = set(kernel.tags())
@@ -78,9 +76,7 @@ def run_shard(ctx):
             continue
         hostile_seen[gd["hostile"]] = hostile_seen.get(gd["hostile"], 0) + 1
         qcls[q["cls"]] = qcls.get(q["cls"], 0) + 1
-        via = "outcomes" if i % 3 else "identify"
-        if len(q["X"]) == 1 and len(q["Y"]) == 1 and i % 5 == 0:
-            via = "single"
+        via = rng.choice(gq.CALL_FORMS)
         run_case(ctx, gg.to_nx(gd), gd, q, via=via)
     # histories on one shared graph object
     for _ in range(ctx.share({"quick": 48, "thorough": 1200}[ctx.tier])):
